@@ -54,7 +54,9 @@ def run(prop, tier, seed, scratch, t0):
         d["counts"].pop("graph_edges", None)
     dr += g1
     # Register calls that stay in progress while transactions are published and another event arrives (Hold)
-    rh = vlib.tlc(scratch, "Watcher", (CFG % graph_cfg).replace("Hold = FALSE", "Hold = TRUE"), name="Watcher_hold", workers=1,
+    # (MaxVer = 2 in both tiers: with 3 versions the graph needs 5-7 GB per driver process and has tens of millions of
+    # windows; the thorough tier runs EVERY window of the MaxVer = 2 graph, the quick tier every 4th)
+    rh = vlib.tlc(scratch, "Watcher", (CFG % ('"S1"', 2)).replace("Hold = FALSE", "Hold = TRUE"), name="Watcher_hold", workers=1,
                   extra=["-dump", "dot,actionlabels", "graph.dot"], timeout=3000)
     if not rh["ok"]:
         raise vlib.Inconclusive("TLC reports %s in Watcher.tla itself (Hold)" % rh["violated"])
